@@ -224,6 +224,78 @@ def run(rep, tier="quick", replay=None, evidence_dir=None, collect_only=False):
             rep.ob("C13.R5", "[%s] %s" % (o["rule"], o["instance"]), o["ok"], o["detail"], o["loc"])
     rep.floor("C13.R5", "imported state-after-write obligations", n5, 3)
 
+    # ---------- R6: an error of a sink write ends the operation ----------
+    rep.rule("C13.R6", "the error of a sink write is never absorbed: wherever a Result that carries a sink write's outcome is branched on, the Err edge can only return an error")
+    import trial
+    import shape
+    COMB = ("std::result::Result::<T, E>::and_then", "std::result::Result::<T, E>::map", "std::result::Result::<T, E>::map_err", "std::result::Result::<T, E>::or_else",
+            "std::result::Result::<T, E>::and", "std::result::Result::<T, E>::inspect_err", "std::result::Result::<T, E>::inspect")
+
+    def is_sink_call(b, t):
+        names = callee_names(t["func"])
+        if not names:
+            return False
+        if names[0] in (WRITE, WRITE_ALL, FLUSH):
+            return not recv_is_memory(t)
+        callee = prog.bodies.get(names[-1]) or prog.bodies.get(names[0])
+        if callee is not None and callee.key in in_scope:
+            # a local writer function: its sink is the argument of the Write-bounded type; an in-memory Vec is not a sink
+            return not any("std::vec::Vec<u8>" in a for a in t.get("argtys", []))
+        return False
+
+    def closure_has_sink(defpath, depth=0):
+        cb = prog.bodies.get(defpath)
+        if cb is None:
+            return False
+        for _, t in cb.calls():
+            if is_sink_call(cb, t):
+                return True
+        if depth < 2:
+            for _, _, st in cb.stmts():
+                if st["s"] == "assign" and st["rv"]["r"] == "agg" and st["rv"].get("ak") == "closure" and closure_has_sink(st["rv"].get("def"), depth + 1):
+                    return True
+        return False
+    n6 = 0
+    for b in bodies:
+        in_drop = b.path.endswith("as std::ops::Drop>::drop") or (b.parent or "").endswith("as std::ops::Drop>::drop")
+        if in_drop:
+            continue
+        carriers = {}   # local -> block of the originating call
+        for bi, t in b.calls():
+            if not t["dest"]["p"] and is_sink_call(b, t) and "Result<" in (b.local_ty(t["dest"]["l"]) or ""):
+                carriers[t["dest"]["l"]] = bi
+        changed = True
+        while changed:
+            changed = False
+            for bi, t in b.calls():
+                names = callee_names(t["func"])
+                if not names or names[0] not in COMB or t["dest"]["p"] or t["dest"]["l"] in carriers:
+                    continue
+                hit = False
+                for a in t["args"]:
+                    if a.get("k") in ("copy", "move") and not a["pl"]["p"]:
+                        if a["pl"]["l"] in carriers:
+                            hit = True
+                        sd = b.single_def(a["pl"]["l"])
+                        if sd and sd[2] == "assign" and sd[3]["r"] == "agg" and sd[3].get("ak") == "closure" and names[0].endswith(("and_then", "or_else")) and closure_has_sink(sd[3].get("def")):
+                            hit = True
+                if hit:
+                    carriers[t["dest"]["l"]] = bi
+                    changed = True
+        for l, obi in sorted(carriers.items()):
+            for sw, ok_t, err_t in trial.result_branches(b, l):
+                if err_t is None:
+                    continue
+                n6 += 1
+                good = shape.edge_must_err(b, sw, err_t)
+                inst = "%s: Err edge of the result of %s only returns an error" % (b.path, callee_names(b.blocks[obi]["term"]["func"])[0].split("::")[-1])
+                k = sum(1 for o in rep.obligations if o["rule"] == "C13.R6" and o["instance"].startswith(inst))
+                if k:
+                    inst = "%s #%d" % (inst, k + 1)
+                rep.ob("C13.R6", inst, good, "a failure of the caller's sink is treated as an ordinary condition and execution continues (e.g. the next alternative is tried): the caller gets Ok, or another error, for bytes that were lost", b.loc(sw))
+    rep.analysed["branches on results that carry a sink write's outcome"] = n6
+    rep.floor("C13.R6", "branches on sink-carrying results", n6, 85)
+
     if collect_only:
         return rep
     rep.not_decided = ["behaviour of particular sinks; Interrupted handling inside std's write_all",
